@@ -1675,6 +1675,8 @@ pub fn cases(prop: &str, t: Tier, seed: u64) -> Vec<Case> {
             tree_family_cases(r, t, "hwt", &["get_unchecked", "rank_unchecked", "select_unchecked", "get", "rank", "select"], &[], scale(t, 12, 80), &mut out);
             rsq_cases(r, t, &["get_unchecked", "rank_unchecked", "select_unchecked", "occs_unchecked", "occs_smaller_unchecked", "select", "rank"], &[], scale(t, 24, 160), &mut out);
             rsbin_cases(r, t, &["rsn", "rsw"], &["get_unchecked", "rank1_unchecked", "rank0_unchecked", "select1_unchecked", "select0_unchecked", "rank1", "select1", "select0"], &[], scale(t, 24, 160), &mut out);
+            // DArray group plans (dense / sparse / threshold groups in every order): checked selects, paired below
+            darray_cases(r, t, &[], scale(t, 20, 120), &mut out);
             // get_bits_unchecked on bit vectors, DArray unchecked selects
             for i in 0..scale(t, 16, 100) {
                 let (mut c, n, ones) = bits_case(r, "bv", 3000);
@@ -2361,6 +2363,22 @@ pub fn cases(prop: &str, t: Tier, seed: u64) -> Vec<Case> {
             out.push(c);
         }
         _ => {}
+    }
+    // C10: every checked query of the case is repeated as a *pair* — the checked method and, when it answers
+    // Some(v), its unchecked twin on the same arguments — so that all generators of valid and boundary
+    // arguments (gap-adjacent selects, threshold blocks, deep codes, large scale) serve C10 as well
+    if prop == "C10" {
+        let twins = ["get", "rank", "select", "rank1", "rank0", "select1", "select0", "occs", "occs_smaller", "rank_prefetch", "get_bits"];
+        for c in out.iter_mut() {
+            let mut extra: Vec<String> = vec![];
+            for l in &c.lines {
+                let t: Vec<&str> = l.splitn(4, ' ').collect();
+                if t.len() >= 3 && t[0] == "q" && twins.contains(&t[2]) {
+                    extra.push(format!("q {} {}_pair{}", t[1], t[2], if t.len() > 3 { format!(" {}", t[3]) } else { String::new() }));
+                }
+            }
+            c.lines.extend(extra);
+        }
     }
     // C04: `Debug::fmt` is a safe public method of every structure: it must not panic on any reachable value
     if prop == "C04" {
